@@ -652,6 +652,7 @@ func run(c *core.Ctx) {
 	explore.Explore(-1, func(x *explore.C) { cs = genCoreInfo(x) }, visit("core-info"))
 	explore.Explore(-1, func(x *explore.C) { cs = genCoreStyleValues(x) }, visit("values-style"))
 	explore.Explore(-1, func(x *explore.C) { cs = genCoreColourPairs(x) }, visit("colour-pairs"))
+	explore.Explore(-1, func(x *explore.C) { cs = genCoreCentis(x) }, visit("centiseconds"))
 	explore.Explore(-1, func(x *explore.C) { cs = genCoreNames(x) }, visit("values-names"))
 	explore.Explore(-1, func(x *explore.C) { cs = genCoreEventValues(x) }, visit("values-event"))
 	explore.Explore(-1, func(x *explore.C) { cs = genCoreTextValues(x) }, visit("values-text"))
